@@ -116,6 +116,28 @@ async fn client(sh: Arc<Shared>, c: usize, spec: ClientSpec, slots: Slots) {
                 Some(other) => put_back(&slots, c, slot, other),
                 None => {}
             },
+            Op::SendHeld { slot, kind, body, hold } => match take_slot(&slots, c, slot) {
+                Some(Hdl::S(a, h)) => {
+                    let uid = body.uid;
+                    {
+                        let mut fut = h.make_u(kind, body);
+                        let (ok, to) = kind_of(kind);
+                        let g = CallGuard::start(&sh, a, ok, 'U', uid, to, ctx);
+                        let res = match futures::poll!(fut.as_mut()) {
+                            std::task::Poll::Ready(r) => r,
+                            std::task::Poll::Pending => {
+                                sh.log.push(K::Note(format!("held-unpolled uid {uid} for {hold} ms")));
+                                tokio::time::sleep(Duration::from_millis(hold)).await;
+                                fut.await
+                            }
+                        };
+                        g.end(res);
+                    }
+                    put_back(&slots, c, slot, Hdl::S(a, h));
+                }
+                Some(other) => put_back(&slots, c, slot, other),
+                None => {}
+            },
             Op::StopDeferred { slot, defer } => match take_slot(&slots, c, slot) {
                 Some(Hdl::S(a, h)) => {
                     {
